@@ -55,6 +55,8 @@ func c15Request(c *Ctx) {
 		return
 	}
 	client := &http.Client{Transport: &http.Transport{MaxIdleConnsPerHost: 2}}
+	srv := newSwapServer()
+	defer srv.Close()
 	type pt struct {
 		mem, max int64
 		size    int64
@@ -113,8 +115,7 @@ func c15Request(c *Ctx) {
 			return
 		}
 		dw := &doneWrap{buf, make(chan struct{}, 4)}
-		srv := newTestServer(dw)
-		defer srv.Close()
+		srv.set(dw)
 		body := detBody(int(p.size), uint64(i))
 		var rd io.Reader = bytes.NewReader(body)
 		if p.chunked {
@@ -215,6 +216,8 @@ func c15Response(c *Ctx) {
 			grid = append(grid, c15RespPt{mem, max, sz, 333, 200, "HEAD", ""})
 		}
 	}
+	srv := newSwapServer()
+	defer srv.Close()
 	c.Cases("grid", len(grid)*c.N(1, 8), func(i int, r *rand.Rand) {
 		p := grid[i%len(grid)]
 		if i >= len(grid) {
@@ -292,10 +295,9 @@ func c15Response(c *Ctx) {
 			return
 		}
 		dw := &doneWrap{buf, make(chan struct{}, 4)}
-		srv := newTestServer(dw)
-		defer srv.Close()
+		srv.set(dw)
 		// raw client so that hijacked / aborted exchanges can be read too
-		conn, err := dialRetry("tcp", srv.Listener.Addr().String())
+		conn, err := dialRetry("tcp", srv.addr())
 		if err != nil {
 			c.Inconclusive("dial failed: " + err.Error())
 			return
